@@ -522,6 +522,12 @@ impl CompressedState {
                 let row_col = pairs[i];
                 let row = row_col >> 6;
                 let mut col = (row_col & 63) as u8;
+                // only the 56 columns outside the window are ever stored
+                if col >= 56 {
+                    return Err(Error::deserial(format!(
+                        "corrupted: stored column {col} of a sliding-flavor pair is not below 56"
+                    )));
+                }
                 // first undo the permutation
                 col = permutation[col as usize];
                 // then undo the rotation: old = (new + (offset+8)) mod 64
@@ -647,6 +653,12 @@ fn low_level_uncompress_pairs(
         let row_index = row_index as u32;
         let col_index = col_index as u8;
         let row_col = (row_index << 6) | (col_index as u32);
+        if row_col == u32::MAX {
+            // (row 2^26 - 1, column 63) is the pair table's "empty" marker; update() never stores it
+            return Err(Error::deserial(
+                "corrupted: decoded pair collides with the empty-slot marker",
+            ));
+        }
         pairs[pair_index as usize] = row_col;
         predicted_row_index = row_index;
         predicted_col_index = col_index + 1;
